@@ -699,12 +699,12 @@ func main() {
 				if se, ok := ce.Fun.(*ast.SelectorExpr); ok && mapWalkers[se.Sel.Name] && len(ce.Args) == 1 {
 					if fl, ok := ce.Args[0].(*ast.FuncLit); ok {
 						ex := se.Sel.Name + "(func)"
-						ords[ex]++
 						cl, why := "insensitive", "callback with per-element effects only"
 						if countsIDs(fl.Body) {
 							cl, why = "choice", "the callback hands out identifiers: their values follow the map iteration order"
 						}
-						out.Ranges = append(out.Ranges, RangeSite{Func: g.name, Pkg: g.pkg, Expr: ex, Ord: ords[ex], Class: cl, Reason: why})
+						ords[ex+"|"+cl]++
+						out.Ranges = append(out.Ranges, RangeSite{Func: g.name, Pkg: g.pkg, Expr: ex, Ord: ords[ex+"|"+cl], Class: cl, Reason: why})
 					}
 				}
 			}
@@ -712,10 +712,12 @@ func main() {
 			if !ok || !isMapExpr(rs.X, mapFields, localMaps) {
 				return true
 			}
-			ex := exprStr(rs.X)
-			ords[ex]++
+			// a site is named by the map FIELD it ranges over (not by the expression text: renaming a variable must not move
+			// it) and by its position among the sites of the same function, field and class
+			ex := rangedField(rs.X)
 			cl, why := classify(rs, g.decl)
-			out.Ranges = append(out.Ranges, RangeSite{Func: g.name, Pkg: g.pkg, Expr: ex, Ord: ords[ex], Class: cl, Reason: why})
+			ords[ex+"|"+cl]++
+			out.Ranges = append(out.Ranges, RangeSite{Func: g.name, Pkg: g.pkg, Expr: ex, Ord: ords[ex+"|"+cl], Class: cl, Reason: why})
 			return true
 		})
 	}
@@ -849,6 +851,21 @@ func isMapExpr(e ast.Expr, mapFields map[string]bool, locals map[string]bool) bo
 		return false
 	}
 	return false
+}
+
+// rangedField: the last component of the ranged expression (x.y.Field -> Field; a local variable -> its name)
+func rangedField(e ast.Expr) string {
+	switch x := e.(type) {
+	case *ast.ParenExpr:
+		return rangedField(x.X)
+	case *ast.StarExpr:
+		return rangedField(x.X)
+	case *ast.SelectorExpr:
+		return x.Sel.Name
+	case *ast.Ident:
+		return x.Name
+	}
+	return exprStr(e)
 }
 
 // classify a map range syntactically
